@@ -97,7 +97,7 @@ def c18_runs(tier):
     fget(alts('ts', 'cts'), alts(1, 2), 'val', 'r.-.-', 2, n=1, opts=FSC, budget=90)
     # (3) sanitizer legs. Under ASan every execution that used the small-buffer allocator ends with a full leak scan
     #     (the allocator's chunks are still live when the body returns), ~1-2 s each on a loaded machine: bound 0 only.
-    fget('man', 2, 'val', PROGS[0], 1, mode='tsan', opts=FSC, budget=90)
+    fget('man', 2, 'val', PROGS[0], 0 if q else 1, mode='tsan', opts=None if q else FSC, budget=150)
     fget('man', 0, 'val', DROPS[0], 0, mode='asan', drop=1, budget=90)
     if not q:
         fget('man', 0, 'thr', PROGS[1], 1, mode='tsan', opts=FSC, budget=200)
@@ -160,9 +160,10 @@ def c19_runs(tier):
         fthen('pool', POOLS, 2, 0, 'g', 1, pol=2, n=1, opts=FSC, budget=60)
         fthen('pool', 'imm', 1, 0, 'b', 1, n=1, budget=60)
     else:
-        fthen('pool', POOLS, 1, 0, BG, 2, pol=alts(0, 1, 2, 3), n=1, opts=FSC, budget=300)
+        fthen('pool', POOLS, 1, 0, 'b', 2, pol=alts(1, 2), n=1, opts=FSC, budget=300)
+        fthen('pool', POOLS, 1, 0, 'g', 1, pol=alts(0, 3), n=1, budget=200)
         fthen('pool', POOLS, 1, 0, 'b', 2, pol=1, n=1, budget=300)
-        fthen('pool', POOLS, 2, 0, 'g', 2, pol=2, n=1, opts=FSC, budget=200)
+        fthen('pool', POOLS, 2, 0, 'g', 1, pol=2, n=1, budget=200)
         fthen('pool', POOLS, 1, 0, 'b', 2, pol=1, n=1, chain=1, opts=FSC, budget=200)
         fthen('pre', POOLS, 1, 0, 'b', 1, pol=alts(1, 2), n=1, budget=60)
         fthen('pool', 'imm', alts(1, 2), 0, BG, 2, n=1, opts=FSC, budget=120)
@@ -183,7 +184,7 @@ def c19_runs(tier):
     fwhen('rm', 'b', 2, ord='1')
     fwhen('mm', 'b', 1 if q else 2, ord='10', obs=1)
     fwhen('mm', BG, 1 if q else 2, ord=alts('01', '10'), early=1, budget=120)  # completers start before the combinator is built
-    fwhen('mm', 'b', 1 if q else 2, ord='01', split=1)
+    fwhen('mm', 'b', 1, ord='01', split=1)
     fwhen('mmm', BG, 1, ord=alts('201', '012'), budget=90)
     if not q:
         fwhen('i', 'g', 1)
@@ -193,7 +194,7 @@ def c19_runs(tier):
         fwhen('mrm', 'b', 2, ord='20', budget=120)
         fwhen('rmr', 'g', 2, ord='1')
         fwhen('mmm', 'g', 2, form='it', ord='120', budget=300)
-        fwhen('mmm', 'b', 1, ord='120', split=1, obs=1, budget=200)
+        fwhen('mmm', 'b', 1, ord='120', split=1, opts=FSC, budget=200)
     # task-set variants: set.wait() returned => result ready
     SETS = alts('ts', 'cts')
     fwhen('mm', 'w', 1 if q else 2, set=SETS, n=0, ord='10', budget=120)
@@ -201,14 +202,14 @@ def c19_runs(tier):
     fwhen('mm', 'g', 1 if q else 2, set=SETS, n=0, ord='01', budget=120)
     if not q:
         fwhen('mm', 'w', 2, set=SETS, n=1, ord='01', opts=FSC, budget=300)
-        fwhen('pm', 'w', 2, set=SETS, n=1, ord='1', opts=FSC, budget=300)
+        fwhen('pm', 'w', 1, set=SETS, n=1, ord='1', budget=300)
         fwhen('mmm', 'w', 1, set=SETS, n=0, ord='201', budget=120)
         fwhen('pp', 'g', 1, set=SETS, n=2, opts=FSC, budget=200)
     fwhen('mm', 'g', 2, op='any', form='it', ord='01', opts={'casfail': 1})
     fwhen('mm', 'b', 2, op='all', form='tup', ord='10', opts={'casfail': 1})
     # ---- sanitizer legs (see C18 for why the ASan legs are bound 0)
-    fthen('man', 'imm', 1, 1, 'b', 1, mode='tsan', opts=FSC, budget=120)
-    fwhen('mm', 'b', 1, op='any', form='it', mode='tsan', ord='10', obs=1, opts=FSC, budget=120)
+    fthen('man', 'imm', 1, 1, 'b', 0 if q else 1, mode='tsan', opts=None if q else FSC, budget=150)
+    fwhen('mm', 'b', 0 if q else 1, op='any', form='it', mode='tsan', ord='10', obs=1, opts=None if q else FSC, budget=150)
     fthen('man', 'imm', 1, 0, 'b', 0, mode='asan', budget=120)
     if not q:
         fthen('man', 'imm', 1, 1, 'g', 1, mode='tsan', chain=1, budget=200)
@@ -286,7 +287,7 @@ def c20_runs(tier):
     # sanitizer legs (explicit api / duration: the folded choices would multiply the slow executions by 12-24)
     cev('during', 1 if q else 2, mode='tsan', api='for', d=1000000, d1=300, opts={'timeout_race': 1, 'spurious': 1}, budget=200)
     cev('during', 2, mode='asan', api='until', d=300, opts={'timeout_race': 1, 'spurious': 1}, budget=90)
-    fut('man', 0, 'during', 1, mode='tsan', api='for', d=1000000, w2=1, opts=TIMED_FSC, budget=120)
+    fut('man', 0, 'during', 0 if q else 1, mode='tsan', api='for', d=1000000, w2=1, opts=TIMED if q else TIMED_FSC, budget=150)
     fut('man', 2, 'never', 0, mode='asan', api='for', d=0, budget=120)
     if not q:
         fut('man', 0, 'blocked', 1, mode='tsan', api='until', d=300, by=2, budget=200)
